@@ -928,7 +928,9 @@ def random_history(ctx, rng, label, max_ops, big=False):
                 tgt = [p for p, f in sch.items() if f["kind"] == kind]
                 if tgt and rng.random() < 0.7:
                     refs["other"] = ("field", rng.choice(tgt))
-                tt = [p for p, f in sch.items() if f["kind"] == "time"]
+                # only utc time fields are attached to positions: the rows of a referenced time object are paired through
+                # the reference, and the harness gives scale-converted rows to the model for fields of the same name only
+                tt = [p for p, f in sch.items() if f["kind"] == "time" and f["unit"] == ("utc",)]
                 if tt and rng.random() < 0.5:
                     refs["time"] = ("field", rng.choice(tt))
             if kind in ("position_delta", "posvel_delta"):
